@@ -25,14 +25,36 @@ MANIFEST = {
  "technique": "property-based testing (Hypothesis): reported objective vs independent evaluation of the written objective at the reported point; handle round-trips",
 }
 
-strategy = lambda tier: solvecases.solve_cases()
+from hypothesis import strategies as st
+
+
+@st.composite
+def cases(draw):
+    case = draw(solvecases.solve_cases())
+    if case["model"]["family"] == "lp" and draw(st.integers(0, 2)) == 0:
+        # integer / binary-free declarations on a linear model: optyx solves the relaxation (with a warning); whatever it
+        # reports, the reported objective must be the objective at the reported values
+        env = case["model"]["env"]
+        hit = False
+        for grp in ("scalars", "vectors", "matrices"):
+            for d_ in env[grp]:
+                if draw(st.booleans()):
+                    d_["domain"] = "integer"
+                    hit = True
+        if not hit and env["scalars"]:
+            env["scalars"][0]["domain"] = "integer"
+        case["integer_declarations"] = True
+    return case
+
+
+strategy = lambda tier: cases()
 sample_repr = solvecases.sample_repr
 
 
 def check(case):
     model, method = case["model"], case["method"]
     env, names = model["env"], model["names"]
-    classes = ["family:" + model["family"], "method:" + method]
+    classes = ["family:" + model["family"], "method:" + method] + (["integer-declarations"] if case.get("integer_declarations") else [])
     desc = f"{solvecases.sample_repr(case)}"
     with quiet():
         try:
